@@ -11,10 +11,10 @@
 import collections.abc
 
 from hypothesis import strategies as st
-from hypothesis.stateful import RuleBasedStateMachine, rule
+from hypothesis.stateful import RuleBasedStateMachine, initialize, rule
 
 from vf import common, stdlib_walk as W
-from yaql.language import contexts
+from yaql.language import contexts, specs, yaqltypes
 from yaql.language import utils as yutils
 
 RULE = ('(a) every registered definition x fillings x 4 modes (data through '
@@ -115,6 +115,38 @@ def host_scratch(yaql_interface, value=0):
     return yaql_interface('$scratch + 1')
 
 
+def host_scaled(context, value=0):
+    """host extension whose answer depends on a variable of the context the
+    call is made in"""
+    f = context['$factor']
+    return value * (1 if f is None else f)
+
+
+@specs.parameter('name', yaqltypes.StringConstant())
+@specs.name('#get_context_data')
+def masked_context_data(name, context):
+    """the documented override point of variable reads: evaluations for
+    untrusted users get a context in which this masks a variable"""
+    if name == '$secret':
+        return '***'
+    return context[name]
+
+
+VARIANTS = 4
+
+
+def prepare_variant(host, variant):
+    """the context the host prepares for one evaluation: 0 plain, 1 / 2
+    $factor = 3 / 5, 3 variable reads overridden (masking $secret)"""
+    prep = host.create_child_context()
+    prep['$secret'] = 'hunter2'
+    if variant in (1, 2):
+        prep['$factor'] = 3 if variant == 1 else 5
+    if variant == 3:
+        prep.register_function(masked_context_data)
+    return prep
+
+
 def make_host_chain(lib):
     """library -> host child with variables and a function -> evaluation ctx"""
     host = lib.create_child_context()
@@ -123,6 +155,7 @@ def make_host_chain(lib):
     host['$hostSet'] = {1, 2}
     host.register_function(host_function, name='hostFn')
     host.register_function(host_scratch, name='hostScratch')
+    host.register_function(host_scaled, name='hostScaled')
     # helpers the host defined in yaql itself: def() hands back the context
     # that holds the function; it is part of the prepared chain and lives as
     # long as the host does
@@ -554,6 +587,12 @@ POOL = [
     'scale(2, factor => 5)', '[total(2), total(2, 3), total(2)]',
     # host extension with a scratch variable; $scratch is unknown outside
     'hostScratch(4)', '[hostScratch($.items.len()), $scratch]', '$scratch',
+    # answers that depend on the context the evaluation is given: a variable
+    # read by a helper / a host extension, overridden variable reads, a
+    # function defined from the data and called with literals only
+    'hostScaled(10)', '[$.items.len(), $secret]', '$secret',
+    'let(k => $.items.len()) -> def(sc, $ * $k) -> sc(10)',
+    '[scale(2), hostScaled(2), $factor]',
 ]
 DOCS = [
     {'items': [3, 1, 2], 'd': {'k': [1], 'j': 2}, 'nested': {'a': {'b': [1]}}},
@@ -584,12 +623,12 @@ _PRISTINE = {}
 UNSTABLE = ('now(', 'random(')
 
 
-def _pristine_outcome(text, convert_input, di):
+def _pristine_outcome(text, convert_input, di, variant=0):
     """the statement parsed anew and evaluated with the document under a
     library and host chain nothing was ever evaluated under"""
     if any(u in text for u in UNSTABLE):
         return None
-    key = (text, convert_input, di)
+    key = (text, convert_input, di, variant)
     if key not in _PRISTINE:
         import yaql as _yaql
         host, _ = make_host_chain(_yaql.create_context())
@@ -597,7 +636,8 @@ def _pristine_outcome(text, convert_input, di):
             _PRISTINE[key] = ('ok', common.snapshot(
                 _engine(convert_input)(text).evaluate(
                     data=mutable(DOCS[di]),
-                    context=host.create_child_context())))
+                    context=prepare_variant(
+                        host, variant).create_child_context())))
         except Exception as e:   # noqa
             _PRISTINE[key] = ('exc', type(e).__name__)
     return _PRISTINE[key]
@@ -620,6 +660,7 @@ def run_history(run, case):
     for step in case['steps']:
         si, di, raw = step[:3]
         ctxmode = step[3] if len(step) > 3 else 0
+        variant = step[4] % VARIANTS if len(step) > 4 else 0
         if ctxmode:
             # evaluation without a context of the host's (yaql builds its
             # own), with data (1) or without (2): compare with the same
@@ -657,7 +698,7 @@ def run_history(run, case):
             reuse += 1
         data = mutable(DOCS[di % len(DOCS)])
         before = common.snapshot(data)
-        ectx = host.create_child_context()
+        ectx = prepare_variant(host, variant).create_child_context()
         try:
             out = ('ok', common.snapshot(parsed[key].evaluate(
                 data=data, context=ectx)))
@@ -677,10 +718,10 @@ def run_history(run, case):
             bad = ('shared-parent-context-changed',
                    '%s changed the shared parent context' % text, text)
             break
-        k2 = (key, di % len(DOCS))
+        k2 = (key, di % len(DOCS), variant)
         if bare:
             continue     # results are not finalised there (lazy objects)
-        exp = _pristine_outcome(text, not raw, di % len(DOCS))
+        exp = _pristine_outcome(text, not raw, di % len(DOCS), variant)
         if exp is not None and out != exp:
             bad = ('evaluation-depends-on-history',
                    '%s with document %d after %d earlier evaluations under '
@@ -712,9 +753,16 @@ def make_machine(run):
             self.steps = []
 
         @rule(si=st.integers(0, len(POOL) - 1),
-              di=st.integers(0, len(DOCS) - 1), raw=st.booleans())
-        def evaluate(self, si, di, raw):
-            self.steps.append([si, di, raw])
+              di=st.integers(0, len(DOCS) - 1), raw=st.booleans(),
+              variant=st.sampled_from([0, 0, 0, 1, 2, 3]))
+        def evaluate(self, si, di, raw, variant):
+            self.steps.append([si, di, raw, 0, variant])
+
+        @rule(variant=st.integers(0, VARIANTS - 1))
+        def repeat_last_in_another_context(self, variant):
+            if self.steps and not self.steps[-1][3:4] in ([1], [2]):
+                last = list(self.steps[-1][:3])
+                self.steps.append(last + [0, variant])
 
         @rule(si=st.sampled_from([i for i, t in enumerate(POOL)
                                   if 'host' not in t]),
@@ -727,9 +775,10 @@ def make_machine(run):
             if self.steps:
                 self.steps.append(list(self.steps[-1]))
 
-        @rule()
-        def use_hand_built_library(self):
-            self.bare = True
+        @initialize(bare=st.sampled_from([False, False, False, True]))
+        def choose_library(self, bare):
+            # (one history in four runs under a library assembled by hand)
+            self.bare = bare
 
         def teardown(self):
             if self.steps:
@@ -754,6 +803,17 @@ def _machine_shard(run, n, steps, shard):
     run.machine('histories', make_machine(run), n, steps, shard=shard)
 
 
+def _variant_pairs_shard(run, part, parts, docs):
+    # every statement of the pool evaluated twice through one parsed object
+    # under one prepared chain, the two evaluations in every ordered pair of
+    # the contexts a host prepares
+    jobs = [(si, di, v1, v2) for si in range(len(POOL)) for di in docs
+            for v1 in range(VARIANTS) for v2 in range(VARIANTS)]
+    for si, di, v1, v2 in jobs[part::parts]:
+        run_history(run, {'kind': 'history', 'steps': [
+            [si, di, False, 0, v1], [si, di, False, 0, v2]]})
+
+
 def run(run):
     full = run.tier == 'thorough'
     common.std_context(delegates=True)
@@ -775,6 +835,9 @@ def run(run):
         200 if full else 40)
     run.shards(_sweep_shard, [(i, 16, 6 if full else 2) for i in range(16)],
                watchdog=120)
+    run.shards(_variant_pairs_shard, [
+        (i, 16, range(len(DOCS)) if full else [run.seed % len(DOCS)])
+        for i in range(16)])
     k = 8
     run.shards(_machine_shard, [((5000 if full else 320) // k,
                                  40 if full else 15, i) for i in range(k)])
